@@ -11,6 +11,8 @@ TABLE_OPTS = ['', '-Cem', '-Ce', '-Cm', '-C', '-Cf', '-CF', '-Cae', '-Caf', '-Ca
 
 
 class Rule:
+    ident = None    # number passed to SIM_ACTION instead of the position (flattened scenarios of C05 part B)
+
     def __init__(self, pat=None, conds=None, bol=False, trail=None, eol=False, is_eof=False, star=False):
         self.pat = pat          # head pattern
         self.trail = trail      # trailing context pattern or None
@@ -64,6 +66,7 @@ class Scenario:
     use_read = False
     user_input = True
     extra_opts = ()
+    scoped = False      # print rules that name conditions inside (nested) start-condition scopes
 
     def __init__(self):
         self.name = 's0'
@@ -245,13 +248,13 @@ class Scenario:
               '  if (!sim_cur->provided_input) { yyterminate(); } }']
         return '\n'.join(o)
 
-    def rule_line(self, i):
+    def rule_line(self, i, with_conds=True):
         r = self.rules[i]
-        k = i + 1
+        k = r.ident if r.ident else i + 1
         pre = ''
         if r.star:
             pre = '<*>'
-        elif r.conds:
+        elif r.conds and with_conds:
             pre = '<' + ','.join(self.cond_name(c) for c in r.conds) + '>'
         if r.is_eof:
             if self.flavor == 'c99':
@@ -336,7 +339,16 @@ class Scenario:
             o.append(('%x ' if ex else '%s ') + name)
         o.append('%%')
         for i in range(len(self.rules)):
-            o.append(self.rule_line(i))
+            r = self.rules[i]
+            if self.scoped and r.conds and not r.star and not r.is_eof:
+                # <A>{ <B>{ rule } }: nested scopes add their conditions to the rule
+                for c in r.conds:
+                    o.append('<%s>{' % self.cond_name(c))
+                o.append(self.rule_line(i, with_conds=False))
+                for c in r.conds:
+                    o.append('}')
+            else:
+                o.append(self.rule_line(i))
         o.append('%%')
         o.append('#include "sim_scn.h"')
         return '\n'.join(o) + '\n'
